@@ -295,6 +295,10 @@ pub enum Op {
         font: String,
         index: usize,
         cut: Option<usize>,
+        /// Overwrite the big-endian u32 at `set.0` with `set.1` (e.g. WOFF2 totalCompressedSize
+        /// halved: the brotli stream then ends after part of the data has been produced).
+        #[serde(default, skip_serializing_if = "Option::is_none")]
+        set: Option<(usize, u32)>,
     },
     /// Fetch every table of the provider (for WOFF2: the reconstructed glyf/loca/hmtx and the
     /// rest) so that C09 can check them for mutual consistency.
